@@ -61,11 +61,15 @@ CLAIMED = {
  'C20': dict(
   text="For concrete multi-file scenarios executed on the real MIR of detect_validators, validators::run (sync path), the sync validators and process_violations, with the iteration order of every hash map and the validator spawn order chosen by the solver (all permutations of <=3 entries) and one severity attribute symbolic: the instantiated validators, the merged violations (as multisets), and the exit status are identical across all orders; parse_blocks examines the same files and produces the same keys under every walk/map order.",
   note="A hashing seed can only change iteration order, which is a parameter of the HashMap model. Threads are run in spawn order. Outside: OS scheduling, core count, cwd, the order ignore::Walk really produces, the async validators."),
+ 'C18': dict(
+  text="On the MIR of validators::run, run_async_validators, CheckLuaValidator::validate, the per-block task, run_lua_script (all as the coroutine state machines rustc prints), block_content and create_violation: for 1-3 (thorough 4) check-lua blocks over 1-2 files, every outcome per script from {nil, string, file missing, load error, no validate, runtime error, non-string result}, symbolic content / blanks / returned strings / attribute values and every completion order of the tasks, Z3 shows: any failing script makes the run Err; otherwise validate() is called exactly once per block with ctx.file = the file path, ctx.line = the start tag's line, ctx.attrs = all attributes and content = trimmed content or the `value` group / whole first match / empty; nil gives no diagnostic, a string exactly one check-lua diagnostic whose lua_error is that string.",
+  note="mlua and the Lua VM are a contract stub (handles, recorded table.set, outcome per script), tokio is a model: a spawned task runs atomically when the JoinSet is polled and the completion order is a forked choice - real interleavings inside tasks, 1..16 worker threads, CPU affinity and timing are NOT explored (the schedules/fault_sequences quantifier of the property is covered only as 'every completion order' and 'every subset failing in each mode'). Every run validates sampled paths against the real binary with real Lua scripts that log their arguments. Up to 4 blocks, not 40."),
+ 'C19': dict(
+  text="On the MIR of validators::run, run_async_validators, CheckAiValidator::validate, the per-block task, OpenAiClient::new_from_env and check_block (coroutine state machines), block_content, process_ai_response, create_violation: for 1-3 (thorough 4) check-ai blocks over 1-2 files, reply kind per block from {text, Err, no choices, null content}, key present / unset / empty, symbolic condition / content / blanks / reply text / model and URL values and every completion order, Z3 shows: a missing key or any faulty reply makes the run Err (no request without a key); otherwise exactly one request per block whose user message is `CONDITION:\\n<condition>\\n\\nBLOCK (formatting preserved):\\n<trimmed content>` byte for byte, with the model, endpoint and key of the BLOCKWATCH_AI_* variables (or defaults); a reply equal to OK / OK. in any letter case gives no diagnostic, any other reply exactly one check-ai diagnostic whose ai_message is the reply.",
+  note="async-openai is a contract stub at the level of chat().create(): connection refused, 4xx, invalid JSON and a body cut short are all Err(OpenAIError) there; HTTP, JSON escaping and reqwest are exercised only by the per-run validation, which runs the real binary against a loopback fake endpoint on sampled paths (requests recorded, model / Authorization / path / user message compared). tokio as in C18 (completion orders, not interleavings). check-ai-pattern selection shares its code shape with check-lua-pattern (C18) and is not in the task list."),
 }
 
 NOT_APPLICABLE = {
- 'C18': "async coroutines on a tokio JoinSet calling the Lua VM over FFI; neither engine executes coroutine MIR, concurrency or foreign code",
- 'C19': "async HTTP client; the reply logic is not separable from the network call",
 }
 PENDING = "harness not built yet (planned, DESIGN.md section 4)"
 
